@@ -5,7 +5,10 @@
 
 package trafficshape
 
-import "time"
+import (
+	"sort"
+	"time"
+)
 
 // verifSpinWait is inserted (at check time, see /verif/tools/instrument.py) into
 // the busy-wait loops of FillThrottle and FillThrottleLocked. On a simulated
@@ -13,4 +16,17 @@ import "time"
 // ticker has to be a sleep: one millisecond of simulated time per iteration.
 func verifSpinWait() {
 	time.Sleep(time.Millisecond)
+}
+
+// verifKeys returns the keys of m in sorted order. The harness rewrites the
+// map iterations that create or stop per-connection buckets to use it, so that
+// the order in which their tickers are armed does not depend on Go's randomised
+// map iteration order.
+func verifKeys[V any](m map[string]V) []string {
+	ks := make([]string, 0, len(m))
+	for k := range m {
+		ks = append(ks, k)
+	}
+	sort.Strings(ks)
+	return ks
 }
